@@ -27,7 +27,7 @@ func init() {
 	Register(&Rule{
 		ID:    "R-NUMGRAMMAR",
 		Doc:   "product of the RFC 8259 number automaton (sign, leading zero, integer, fraction, exponent) with an exhaustive abstract interpretation of json.(decoder).parseNumber over {position relative to the cursor, end-of-input relation, byte class}: in every reachable pair the function consumes a byte iff the automaton has that transition, returns the prefix ending at the cursor with a nil error iff the automaton is stuck in an accepting state, returns an error iff it is stuck in a non-accepting one, reads no byte it has not bounds-tested, and reports the Kind (Uint / Int / Float) the consumed text has",
-		Props: []string{"C05", "C02", "C11", "C17", "C06"},
+		Props: []string{"C05", "C02", "C11", "C17", "C06", "C14"},
 		Min:   map[string]int{"C05": 1, "C02": 1, "C11": 1, "C17": 1, "C06": 1},
 		Run:   runNumGrammar,
 	})
@@ -222,7 +222,7 @@ func printable(b byte) string {
 
 func runNumGrammar(c *core.Ctx) []core.Obligation {
 	b := newOb(c, "R-NUMGRAMMAR")
-	props := []string{"C05", "C02", "C11", "C17", "C06"}
+	props := []string{"C05", "C02", "C11", "C17", "C06", "C14"}
 	key := "numgrammar:json.(decoder).parseNumber"
 	fn := c.Lookup("json.(decoder).parseNumber")
 	if fn == nil {
